@@ -83,6 +83,17 @@ std::vector<LeakInfo> ledger_dump()
     std::sort(v.begin(), v.end(), [](const LeakInfo &a, const LeakInfo &b) { return a.serial < b.serial; });
     return v;
 }
+// blocks libyaml allocated during an operation in which one of its own allocations was failed:
+// how libyaml cleans up after its own out-of-memory condition is not libvna's behaviour
+size_t ledger_forgive_yaml(long op)
+{
+    size_t n = 0;
+    for (auto it = ledger().begin(); it != ledger().end();) {
+	if (it->second.domain == 1 && it->second.op == op) { it = ledger().erase(it); ++n; }
+	else ++it;
+    }
+    return n;
+}
 static inline void ledger_add(void *p, size_t n, int domain, void *pc)
 {
     if (!p) return;
